@@ -358,9 +358,18 @@ func c14padBits(enc []byte, p uint8, n int) int {
 
 func c14grid(c *vf.Ctx, i int) { c14encodeWorld(c, gcsGridCfg(c.R, i)) }
 
+// c14largeQuick: the directed large configurations the quick tier encodes
+// (N = 10^5, N*M on both sides of 2^32, clustered members with one very long
+// unary run, more than 2^17 members with N not a multiple of 8).
+var c14largeQuick = []int{0, 1, 3, 4, 10, 14}
+
 func c14random(c *vf.Ctx, i int) {
 	nl := len(gcsLargeCfgs)
-	if i < c.Tier.Sz(4, nl) {
+	if c.Tier != vf.Thorough && i < len(c14largeQuick) {
+		c14encodeWorld(c, gcsLargeCfgs[c14largeQuick[i]])
+		return
+	}
+	if c.Tier == vf.Thorough && i < nl {
 		c14encodeWorld(c, gcsLargeCfgs[i])
 		return
 	}
